@@ -29,6 +29,15 @@ CHECKS = {
  "C16": ("exploration", E2,
          "Loop nests of depth 1-3 (iteration, intersection, iteration over intersection, matrix-vector with populate, Gustavson matrix-matrix, projection) over every operand tree of small universes with explicit defaults and empty sub-fibers, all trace types the nest can emit registered at once: header, one row per simulated access in execution order (independent two-finger simulation incl. trailing peeks; loop bodies), stamp order (strict for iter), coordinates, positions against raw indices in the operand fibers; every flush threshold 2..rows+2 and consumable traces must give identical rows. Destination-side populate traces: header, stamp order, threshold/consumable independence only.",
          "Trusted: the trace-row simulation (calibrated on 19 683 nests, probe q27); thresholds <= 9 plus 1000.", "DESIGN.md §3 C16"),
+ "C07": ("exploration", E2,
+         "Every fiber of F1(N) (N<=5, thorough 6) x declared shape x every active range x owned/unowned x both rank formats is run through every traversal mode (__iter__, iterOccupancy, iterRange over all s,e, iterActive, iterShape, iterActiveShape, iterRangeShape with steps, the three Ref forms complete and abandoned with the exact set of inserted coordinates), every legal start_pos incl. chained windows from getSavedPos(), the dense co-iterators and their Ref forms on pairs/triples, project with increasing and decreasing affine transforms, every interval and start_pos, prune with a predicate family, lazy fibers traversed twice and materialised with fromLazy; every yielded sequence is compared with list comprehensions over the cell vector and non-Ref traversals must leave the raw tree unchanged.",
+         "Trusted: list-comprehension oracles over the cell vector; for a shortcut that skips part of the slice only 'suffix of the un-shortcut yield' is demanded.", "DESIGN.md §3 C07"),
+ "C10": ("model_checking", E1,
+         "For every tree of T2(2,2) and a T3 slice in several tensor configurations (formats, zero/non-zero default, declared/estimated shape): each of 38 value-returning operations is bracketed by a deep structural snapshot and an object-identity set (Fiber, Payload box, Rank, RankAttrs, default boxes) - operand unchanged, nothing shared - and then extended by every follow-up mutation of an 8-entry menu applied to the result (operand must not change) and to the operand (result must not change): all histories of length 2. Each of 33 read-only operations (reads, iterators, co-iteration, ==, counting, shape queries, printing, YAML dump, footprints, nonEmpty, slicing) is bracketed by tree + rank-list snapshots; the three renderers are run twice per tree and compared byte for byte.",
+         "Trusted: obs.ids() reaches every mutable object a result can share; follow-up menu of 8 mutations; trees up to 2x2x2.", "DESIGN.md §3 C10"),
+ "C19": ("exploration", E2,
+         "The real & is executed under Metrics with consumable intersect_0/intersect_1 traces for every top-level pair of F1(5) and for 1-3 consecutive rows under an outer rank against a fixed or per-row second operand; the same traces are fed to the real TwoFinger / SkipAhead / LeaderFollower models fiber by fiber and in one shot and the totals compared with independent merges of the raw coordinate lists; Compute.numSwaps is compared with a per-round, per-group charge recomputed from the tree for every tree of four universes x radix {2,3,4,N} x latency {1,2,N} x two payload valuations.",
+         "Trusted: the independent merge counters (self-checked against the totals pinned by test_intersector.py / test_compute.py at start-up); where the statement leaves a reading open (content-free child as a list, tie-break of equal heads) every consistent reading is accepted.", "DESIGN.md §3 C19"),
  "C04": ("exploration", E2,
          "Every ordered pair / k-tuple of fibers of the stated small universes (leaf, sub-fiber, tuple-coordinate, mixed-arity, uncompressed-format and n-ary families) is run through the real operators and compared with set algebra, payload identity, mask and freshness oracles; operands and owning tensors are snapshotted before and after. Exhaustive within the bounds, which contain every relative order of the last elements of both operands and every explicit-default placement.",
          "Trusted: the harness's construction of operands through Fiber()/Tensor.fromFiber and raw reads of coords/payloads; nothing is claimed beyond N<=7 coordinates, depth 2, k<=4.", "DESIGN.md §3 C04"),
